@@ -1074,7 +1074,7 @@ def setup(ctx):
 
 
 def run(ctx):
-    bad = ref.selftest(n=ctx.scale(1500, 20000), seed=ctx.seed + 1)
+    bad = ref.selftest(n=ctx.scale(1500, 30000), seed=ctx.seed + 1)
     ctx.extra["oracle_selftest_problems"] = len(bad)
     if bad:
         from ..engine import Inconclusive
@@ -1085,7 +1085,7 @@ def run(ctx):
     for f in sorted(ref.FUNCS):
         if ctx.stop():
             break
-        n = ctx.scale(6000 if f in HEAVY else 3500, 60000 if f in HEAVY else 35000)
+        n = ctx.scale(6000 if f in HEAVY else 3500, 300000 if f in HEAVY else 175000)
         ctx.forall(ctx.fparts[f], n)
 
 
